@@ -10,7 +10,7 @@
    sequential step function of the model); any finer-grained body is what the mutex makes atomic anyway. *)
 From Coq Require Import String List NArith ZArith Bool Arith Lia.
 From LV Require Import model.LockDiscipline model.Lin proofs.LinSim proofs.Lin proofs.LinTable
-  model.Wlru model.Semaphore spec.KvSpec model.LinObjects.
+  model.Wlru model.Semaphore spec.KvSpec model.CrashBase model.LinObjects.
 Import ListNotations.
 Local Open Scope string_scope.
 
@@ -500,6 +500,57 @@ Section FlushableInstance.
     exact (os_race_free _ _ _ fl_step fkey fkeys fk_readonly fkeys_complete f_readonly_sound tbl Hcheck).
   Qed.
 End FlushableInstance.
+
+(* ------------------------------------------------------------------ SyncedPool's own operations over SyncedPool.v (C25) *)
+(* Every operation of the pool itself runs, from its first to its last statement, under the pool's mutex; among
+   themselves they are therefore operations of a one-mutex object whose sequential step is model/LinObjects.pl_step
+   (SyncedPool.pool_step + CrashBase's durable world).  NOT covered here: writes through the store handles returned
+   by OpenDB, which take only the store's own lock — with those running concurrently Flush, NotFlushedSizeEst and
+   Initialize are not atomic (they visit the stores one critical section after the other: recorded finding, see
+   props/C28.v C28_pool_multi_store_ops_refuted and the POOLMID case). *)
+Inductive lop :=
+| LFlush (id : CrashBase.bytes) | LSize | LNames | LOpen (n : CrashBase.name) | LUnder (n : CrashBase.name)
+| LInit (ns : list CrashBase.name).
+Definition lop_pop (o : lop) : pop :=
+  match o with
+  | LFlush id => PFlush id | LSize => PSize | LNames => PNames | LOpen n => POpen n | LUnder n => PUnder n
+  | LInit ns => PInit ns
+  end.
+Definition lkey (o : lop) : mkey :=
+  match o with
+  | LFlush _ => ("SyncedPool", "Flush") | LSize => ("SyncedPool", "NotFlushedSizeEst")
+  | LNames => ("SyncedPool", "Names") | LOpen _ => ("SyncedPool", "OpenDB")
+  | LUnder _ => ("SyncedPool", "GetUnderlying") | LInit _ => ("SyncedPool", "Initialize")
+  end.
+Definition lkeys : list mkey :=
+  [("SyncedPool", "Flush"); ("SyncedPool", "NotFlushedSizeEst"); ("SyncedPool", "Names"); ("SyncedPool", "OpenDB");
+   ("SyncedPool", "GetUnderlying"); ("SyncedPool", "Initialize")].
+Definition lk_readonly (k : mkey) : bool :=
+  existsb (key_eqb k) [("SyncedPool", "NotFlushedSizeEst"); ("SyncedPool", "Names")].
+
+Lemma lkeys_complete : forall o, In (lkey o) lkeys.
+Proof. intros []; simpl; tauto. Qed.
+
+Section PoolInstance.
+  Variable fk : CrashBase.bytes.                (* the flush-id key *)
+  Definition lstep_pool (s : pstate) (o : lop) : pstate * pres := pl_step fk s (lop_pop o).
+
+  Lemma l_readonly_sound : forall o s, lk_readonly (lkey o) = true -> fst (lstep_pool s o) = s.
+  Proof. intros [] s H; simpl in H; try discriminate; reflexivity. Qed.
+
+  Variable tbl : list lock_row.
+  Hypothesis Hcheck : tk_check lkeys lk_readonly tbl = true.
+  Definition poolkind : lop -> Lin.lkind := tk_kind lop lkey tbl.
+
+  Theorem pool_ops_linearizable : forall s0 tr c,
+    exec pstate lop pres (option pres) (os_linit lop pres) (os_mstep _ _ _ lstep_pool) (os_fin lop pres)
+         nowait nowstep poolkind s0 tr c ->
+    linearizable pstate lop pres (option pres) (os_linit lop pres) (os_mstep _ _ _ lstep_pool) (os_fin lop pres)
+         nowait nowstep s0 (hist lop pres tr).
+  Proof.
+    exact (os_linearizable _ _ _ lstep_pool lkey lkeys lk_readonly lkeys_complete l_readonly_sound tbl Hcheck).
+  Qed.
+End PoolInstance.
 
 (* ------------------------------------------------------------------ non-vacuity of the Wait machinery *)
 (* a blocked Acquire waits on the condition variable, another goroutine releases, the waiter re-acquires and
